@@ -175,6 +175,7 @@ type world struct {
 	b       *bk.Broker // the first broker (the only one unless the replay runs a cluster)
 	f       *fabric
 	nb      int
+	broken  map[string]bool // connections the broker closed although no request ended them
 	k       int // depth inflation: every channel word is repeated k times (0 or 1 = as is); semantics-preserving for literals and '+'
 	keys    map[string]string
 	clients map[string]*bk.Client
@@ -240,10 +241,21 @@ func (w *world) collect(requester, isSub string) (map[string]*outRec, error) {
 	for _, n := range w.names {
 		out[n] = &outRec{S: []map[string]any{}, A: []map[string]any{}}
 	}
+	// a connection the broker closed although the request does not end it is an observation (no action of the
+	// specification explains a "closed-by-broker" packet), not a failure of the driver; only a timeout is
+	closedByBroker := map[string]bool{}
 	if c := w.clients[requester]; c != nil && !c.Closed {
 		pk, err := c.Barrier(stepTimeout)
 		if err != nil {
-			return out, fmt.Errorf("client %s: %v", requester, err)
+			if err == bk.ErrTimeout {
+				return out, fmt.Errorf("client %s: %v", requester, err)
+			}
+			closedByBroker[requester] = true
+			c.Closed = true
+			if w.broken == nil {
+				w.broken = map[string]bool{}
+			}
+			w.broken[requester] = true
 		}
 		got[requester] = pk
 	}
@@ -260,7 +272,15 @@ func (w *world) collect(requester, isSub string) (map[string]*outRec, error) {
 		}
 		pk, err := c.Barrier(stepTimeout)
 		if err != nil {
-			return out, fmt.Errorf("client %s: %v", n, err)
+			if err == bk.ErrTimeout {
+				return out, fmt.Errorf("client %s: %v", n, err)
+			}
+			closedByBroker[n] = true
+			c.Closed = true
+			if w.broken == nil {
+				w.broken = map[string]bool{}
+			}
+			w.broken[n] = true
 		}
 		pk = append(got[n], pk...)
 		var replay [][]any
@@ -284,6 +304,14 @@ func (w *world) collect(requester, isSub string) (map[string]*outRec, error) {
 			out[n].S = append(out[n].S, w.toModel(p))
 		}
 		flush()
+		if closedByBroker[n] {
+			out[n].S = append(out[n].S, map[string]any{"t": "closed-by-broker"})
+		}
+	}
+	for n := range closedByBroker {
+		if w.clients[n] != nil && len(out[n].S) == 0 || (len(out[n].S) > 0 && out[n].S[len(out[n].S)-1]["t"] != "closed-by-broker") {
+			out[n].S = append(out[n].S, map[string]any{"t": "closed-by-broker"})
+		}
 	}
 	return out, nil
 }
@@ -473,6 +501,16 @@ func Replay(mode string, licVer int, storage string, walk []json.RawMessage, lab
 
 // ReplayN executes one behaviour on nb brokers (clients placed as Session!StdHome says); see cluster.go.
 func ReplayN(nb int, surveyed bool, mode string, licVer int, storage string, walk []json.RawMessage, label string, rng *rand.Rand) (*core.Trace, error) {
+	return replayWith(nb, surveyed, false, mode, licVer, storage, walk, label, rng)
+}
+
+// ReplayStandalone executes one behaviour on a broker whose configuration has no cluster section (a single node: no
+// swarm, no replicated state, bans and surveys have nobody to talk to).  The specification is the same.
+func ReplayStandalone(mode string, licVer int, storage string, walk []json.RawMessage, label string, rng *rand.Rand) (*core.Trace, error) {
+	return replayWith(1, false, true, mode, licVer, storage, walk, label, rng)
+}
+
+func replayWith(nb int, surveyed, standalone bool, mode string, licVer int, storage string, walk []json.RawMessage, label string, rng *rand.Rand) (*core.Trace, error) {
 	// a behaviour in which the broker restarts runs on the disk-backed store (in its own directory, kept across the restart)
 	restartDir := ""
 	for _, raw := range walk {
@@ -487,7 +525,7 @@ func ReplayN(nb int, surveyed bool, mode string, licVer int, storage string, wal
 			break
 		}
 	}
-	f, err := newFabricDir(nb, mode, licVer, storage, surveyed, restartDir)
+	f, err := newFabricWith(nb, mode, licVer, storage, surveyed, restartDir, standalone)
 	if err != nil {
 		return nil, fmt.Errorf("broker: %v", err)
 	}
@@ -514,7 +552,7 @@ func ReplayN(nb int, surveyed bool, mode string, licVer int, storage string, wal
 		delete(ev, "n")
 		c := w.clients[a.C]
 		if a.N != "connect" && a.N != "cluster" && a.N != "restart" && a.N != "stranger" && (c == nil || c.Closed) {
-			if closedByHostile[a.C] {
+			if closedByHostile[a.C] || w.broken[a.C] {
 				break // the generator assumed the connection survives its hostile request; the broker closed it (allowed): the behaviour ends here
 			}
 			return nil, fmt.Errorf("behaviour uses client %s which is not open", a.C)
@@ -644,7 +682,7 @@ func ReplayN(nb int, surveyed bool, mode string, licVer int, storage string, wal
 		case "restart":
 			// stop the broker (every connection has ended), start a new one on the same directory
 			f.close()
-			nf, err := newFabricDir(nb, mode, licVer, storage, surveyed, restartDir)
+			nf, err := newFabricWith(nb, mode, licVer, storage, surveyed, restartDir, standalone)
 			if err != nil {
 				// "the store always reopens": a broker that cannot start on its own directory is a verdict of C15, not of this step
 				return nil, fmt.Errorf("restart: %v", err)
@@ -688,8 +726,10 @@ func ReplayN(nb int, surveyed bool, mode string, licVer int, storage string, wal
 		if f.multi() {
 			ev["routes"] = f.routes(b.Lic.Contract())
 		}
-		if storage != "noop" && (a.N == "pub" || a.N == "end" || a.N == "restart") {
-			ev["stored"] = w.storedMessages()
+		if storage != "noop" && !f.survey && (a.N == "pub" || a.N == "end" || a.N == "restart") { // (a surveying store's query also returns the peers' messages)
+			if st := w.storedMessages(); st != nil {
+				ev["stored"] = st
+			}
 		}
 		tr.Events = append(tr.Events, core.Ev(ev))
 		if EventSink != nil {
@@ -700,8 +740,15 @@ func ReplayN(nb int, surveyed bool, mode string, licVer int, storage string, wal
 }
 
 // storedMessages reads every broker's message store back through its own query interface: [channel words, payload, ttl].
-func (w *world) storedMessages() map[string][][]any {
-	out := map[string][][]any{}
+func (w *world) storedMessages() (out map[string][][]any) {
+	out = map[string][][]any{}
+	defer func() {
+		if r := recover(); r != nil {
+			// the store's own query panicked under the harness' probe: no read-back for this step (verdicts come from
+			// what clients observe)
+			out = nil
+		}
+	}()
 	for _, bn := range w.f.names {
 		b := w.f.bs[bn]
 		seen := map[string]bool{}
@@ -957,7 +1004,14 @@ func RunFamily(c *core.Ctx, p Plan) {
 			defer wg.Done()
 			defer func() { <-sem }()
 			lic := 1 + (ji+int(c.Seed))%3
-			t, err := Replay(j.mode, lic, p.Storage, j.walk, fmt.Sprintf("%s-%s-%d-lic%d", p.Fam, j.mode, j.i, lic), rand.New(rand.NewSource(c.Seed+int64(ji))))
+			var t *core.Trace
+			var err error
+			if ji%4 == 3 {
+				// every fourth behaviour on a broker configured without a cluster section
+				t, err = ReplayStandalone(j.mode, lic, p.Storage, j.walk, fmt.Sprintf("%s-%s-%d-lic%d-standalone", p.Fam, j.mode, j.i, lic), rand.New(rand.NewSource(c.Seed+int64(ji))))
+			} else {
+				t, err = Replay(j.mode, lic, p.Storage, j.walk, fmt.Sprintf("%s-%s-%d-lic%d", p.Fam, j.mode, j.i, lic), rand.New(rand.NewSource(c.Seed+int64(ji))))
+			}
 			mu.Lock()
 			defer mu.Unlock()
 			if err != nil {
